@@ -416,7 +416,8 @@ def linear_abstract(e, table, cache=None):
     def opaque(t):
         key = t.get_id()
         if key not in table:
-            v = z3.Real('lin!%d' % len(table)) if z3.is_real(t) or z3.is_int(t) else z3.Bool('linb!%d' % len(table))
+            v = (z3.Int('lini!%d' % len(table)) if z3.is_int(t) else z3.Real('lin!%d' % len(table))) if z3.is_arith(t) \
+                else z3.Bool('linb!%d' % len(table))
             table[key] = (v, t)      # keep t alive: ids are only unique among live terms
         return table[key][0]
     if z3.is_rational_value(e) or z3.is_int_value(e) or z3.is_true(e) or z3.is_false(e):
